@@ -65,6 +65,22 @@ def last_assignment(name, fn, before_line):
     return best[1] if best else None
 
 
+_SWAP_OPS = {ast.Lt: ast.Gt, ast.Gt: ast.Lt, ast.LtE: ast.GtE, ast.GtE: ast.LtE, ast.Eq: ast.Eq, ast.NotEq: ast.NotEq}
+
+
+def _where_text(x):
+    """Text of a WHERE argument with the table column on the left (`pack_id == Obj.pack_id` -> `Obj.pack_id == pack_id`)."""
+    if isinstance(x, ast.Compare) and len(x.ops) == 1 and type(x.ops[0]) in _SWAP_OPS:
+        l, r = x.left, x.comparators[0]
+
+        def is_col(e):
+            return isinstance(e, ast.Attribute) and isinstance(e.value, ast.Name) and e.value.id[:1].isupper()
+        if is_col(r) and not is_col(l):
+            y = ast.Compare(left=r, ops=[_SWAP_OPS[type(x.ops[0])]()], comparators=[l])
+            return ast.unparse(ast.fix_missing_locations(ast.copy_location(y, x)))
+    return ast.unparse(x)
+
+
 def sql_statement(prog, expr, fn, line, depth=0):
     """Classify an SQLAlchemy statement expression -> dict(op=..., cols=[...], text=..., or_ignore=bool, where=[...],
     order_by=[...], limit=expr) or None."""
@@ -85,7 +101,7 @@ def sql_statement(prog, expr, fn, line, depth=0):
     for c in chain:
         a = c.func.attr
         if a in ('where', 'filter'):
-            info['where'] += [ast.unparse(x) for x in c.args]
+            info['where'] += [_where_text(x) for x in c.args]
         elif a == 'order_by':
             info['order_by'] += [ast.unparse(x) for x in c.args]
         elif a == 'limit':
